@@ -154,7 +154,7 @@ func (o op) setsNormal() bool {
 	case "create", "add":
 		return o.Normal
 	case "update":
-		return o.Normal && (o.Mask == "normal" || o.Mask == "none")
+		return o.Normal && (o.Mask == "normal" || o.Mask == "none" || o.Mask == "title+normal")
 	}
 	return false
 }
@@ -340,6 +340,8 @@ func (w *world) exec(o op, id string) (out outcome) {
 				mask = &fieldmaskpb.FieldMask{Paths: []string{"normal"}}
 			case "title":
 				mask = &fieldmaskpb.FieldMask{Paths: []string{"title"}}
+			case "title+normal":
+				mask = &fieldmaskpb.FieldMask{Paths: []string{"title", "normal"}} // several paths, in the caller's order
 			case "empty":
 				mask = &fieldmaskpb.FieldMask{} // present, no paths: nothing is written
 			}
